@@ -362,6 +362,7 @@ def run_history(sc, want_idempotence=True, faults=None, audits=True):
                         continue
                     violations.append(viol('own.entry-type-changed', '%s: %r was %s, now %s' % (what, p, tags[0], post[p][0]), sig='%s->%s' % (tags[0], post[p][0])))
             # out-of-scope entries on a sub-directory update
+            written_now = set(p_ for e_ in seam.write_events if e_[0] >= opi - 2 for p_ in e_[2].split(' -> '))
             if scope:
                 for ln, ents in bl.items():
                     if ln not in al:
@@ -374,7 +375,12 @@ def run_history(sc, want_idempotence=True, faults=None, audits=True):
                         if psw(full, scope):
                             return False
                         if e['tag'] == 'MANIFEST':
-                            return False
+                            # exempt: the chain above the scope (Manifests whose directory covers it) and any
+                            # Manifest this operation wrote itself; a reference to a sibling's Manifest is not
+                            tdir = os.path.dirname(full)
+                            if psw(scope, tdir) or full in written_now:
+                                return False
+                            return True
                         return True
                     b = sorted(repr(ekey(e)) for e in ents if outside(e))
                     a2 = sorted(repr(ekey(e)) for e in al[ln] if outside(e))
